@@ -709,13 +709,29 @@ def run_c20(rep, rng, tier):
                     mods.update(mf)
                 else:
                     root_decls += c.decls
+        # bindings and devices need no declaration before them: move some into modules of their own, away from the file
+        # that declares their struct (the merge must keep them even though the struct's default binding has the same name)
+        if rng.random() < 0.5:
+            cand = [ix for ix, dc in enumerate(root_decls) if dc["k"] in ("impl", "device")]
+            if cand:
+                ix = rng.choice(cand)
+                jx = ix + 1
+                while jx < len(root_decls) and root_decls[jx]["k"] in ("impl", "device") and rng.random() < 0.5:
+                    jx += 1
+                parts = [rng.choice(["bus", "io", "mods"]), rng.choice(["can", "types", "base"]) + "0"]
+                rel = "/".join(parts) + ".fcp"
+                if rel not in mods:
+                    sub = Desc()
+                    sub.decls = root_decls[ix:jx]
+                    mods[rel] = sub
+                    root_decls = root_decls[:ix] + [{"k": "mod", "path": parts}] + root_decls[jx:]
         files = {}
         rd = Desc()
         rd.decls = root_decls
         files["main.fcp"] = render(rng, desc_toks(rng, rd), "canon")
         for rel, sub in mods.items():
             files[rel] = render(rng, desc_toks(rng, sub), rng.choice(["canon", "wild"]))
-        inject = rng.choice([None, None, "syntax", "resolve", "missing"]) if mods else None
+        inject = rng.choice([None, None, None, "syntax", "resolve", "missing", "semantic"]) if mods else None
         victim = None
         if inject:
             victim = rng.choice(sorted(mods))
@@ -723,6 +739,11 @@ def run_c20(rep, rng, tier):
                 files[victim] = files[victim].replace("{", "{ ) ", 1) if "{" in files[victim] else files[victim] + " }"
             elif inject == "resolve":
                 files[victim] += "\nstruct Broken { z @ 0: NoSuchType, }\n"
+            elif inject == "semantic":
+                # a well-formed text that fails in a transformer callback, far down in the module (beyond the importer's length)
+                files[victim] += "\n" * rng.randint(1, 40) + rng.choice([
+                    "struct Broken { z @ 1.5: u8, }\n", "enum Broken { }\n", "struct Broken { z @ 0: u8 | frobnicate(1), }\n",
+                    'enum Broken { P = "s", }\n', "struct Broken { z @ 0: u8 | unit(), }\n"])
             else:
                 del files[victim]
         single = {"main.fcp": render(rng, desc_toks(rng, d), "canon")}
@@ -765,6 +786,12 @@ def run_c20(rep, rng, tier):
                 rep.cov["disagreements_checked"] += 1
                 rep.violation(dict(base, kind="error-names", observed=texts,
                                    what="error does not name the module / missing file"))
+                continue
+            first = next((e for e in oa["err"] if "file" in e), None)
+            if inject in ("syntax", "resolve", "semantic") and first is not None and first.get("rel") not in (None, victim):
+                rep.cov["disagreements_checked"] += 1
+                rep.violation(dict(base, kind="error-cites-wrong-file", observed=oa["err"][:3],
+                                   what="the error raised inside the module cites another file than the module"))
                 continue
             if any(not c[2] for c in oa["cited"]) or not isinstance(oa["rendered"], int):
                 rep.cov["disagreements_checked"] += 1
@@ -849,6 +876,23 @@ def run_c11(rep, rng, tier):
             toks = mutate_tokens(rng, toks)
         inputs.append((render(rng, toks, "canon"), "mutation"))
     jobs = [{"files": {"main.fcp": t}, "root": "main.fcp", "from_string": i % 2 == 0} for i, (t, _) in enumerate(inputs)]
+    # errors of every stage inside imported modules (one and two levels deep), far below the importer's last line
+    bad_tails = ["struct Broken { z @ 1.5: u8, }\n", "enum Broken { }\n", "struct Broken { z @ 0: u8 | frobnicate(1), }\n",
+                 'enum Broken { P = "s", }\n', "struct Broken { z @ 0: NoSuchType, }\n", "struct Broken { z @ 0 u8 }\n",
+                 "struct Broken {\n", 'struct Broken { z @ 0: u8 | range(0, 1), }\n', "service Sv @ 1.5 { method m(A) @ 0 returns A, }\n"]
+    for _ in range(n // 10):
+        d = gen_desc(rng, max_decls=3)
+        body = render(rng, desc_toks(rng, d), "canon")
+        tail = rng.choice(bad_tails)
+        deep = rng.random() < 0.4
+        files = {"main.fcp": 'version: "3"\nmod ' + ("lib.a" if deep else "a") + ";\nstruct Main { x @ 0: u8, }\n"}
+        if deep:
+            files["lib/a.fcp"] = 'version: "3"\nmod b;\n'
+            files["lib/b.fcp"] = body + "\n" * rng.randint(1, 30) + tail
+        else:
+            files["a.fcp"] = body + "\n" * rng.randint(1, 30) + tail
+        inputs.append((json.dumps(files, sort_keys=True), "module-error"))
+        jobs.append({"files": files, "root": "main.fcp", "from_string": False})
     ires = run_cases("harness.frontend", "w_parse", jobs, timeout_s=60)
     mres = run_driver_parallel(model_cases(jobs))
     for (text, stream), job, r, m in zip(inputs, jobs, ires, mres):
@@ -897,7 +941,8 @@ def run(prop, tier, replay=None):
                "services, devices) printed under canonical / dense / random formatting (spaces, tabs, newlines, // and /* */ "
                "comments, optional |, trailing commas, optional 'as'); distinct by text",
         "C08": "descriptions with one injected reference (forward / self / undeclared, at any nesting depth) or none; distinct by text",
-        "C11": "random text over the token alphabet, character prefixes of valid schemas, token-level mutations, out-of-domain literals",
+        "C11": "random text over the token alphabet, character prefixes of valid schemas, token-level mutations, out-of-domain literals, "
+               "and errors of every stage placed deep inside imported modules (one and two levels)",
         "C20": "descriptions split into module trees (depth <= 3, dotted paths) on a temporary directory, with injected syntax / "
                "resolution errors and deleted module files; each compared with its single-file twin",
     }[prop]
